@@ -203,6 +203,8 @@ def datetime_isoformat_sanity(o, n, r):
         y, m, d = I.draw_date(r)
         h, mi, s, us = I.draw_time(r)
         oh, om, neg = r.randint(0, 23), r.randint(0, 59), r.randrange(2)
+        if oh == 0 and om == 0:
+            neg = 0        # CPython prints a zero offset as +00:00; '-00:00' is a different (valid) spelling
         withoff = r.random() < 0.5
         tzinfo = D.timezone((-1 if neg else 1) * D.timedelta(hours=oh, minutes=om)) if withoff else None
         if us == 0:
